@@ -38,6 +38,8 @@ def main():
         d, key, cached = engine.extract_facts()
         facts = Facts(d)
         ctx.facts = facts
+        import common
+        common.FACTS[0] = facts
         ctx.tree_key = key
         ctx.cached = cached
     except Inconclusive as e:
